@@ -110,7 +110,7 @@ def txn_log(draw, st, n_events):
     seq = {}
     for _ in range(n_events):
         r = draw(st.integers(0, 11))
-        pid = draw(st.integers(1, 4))
+        pid = draw(st.integers(0, 4))
         if r <= 4:
             n = draw(st.integers(1, 3))
             specs.append({"fmt": "v2", "kind": "data", "n": n, "pid": pid, "txn": True, "seq": seq.get(pid, 0),
@@ -191,7 +191,7 @@ def strategy():
         env = []
         for _ in range(draw(st.integers(0, 2))):
             kind = draw(st.sampled_from(["data", "commit", "abort"]))
-            spec = {"fmt": "v2", "kind": "data", "n": 2, "ts": [5]} if kind == "data" else {"kind": kind, "pid": draw(st.integers(1, 4))}
+            spec = {"fmt": "v2", "kind": "data", "n": 2, "ts": [5]} if kind == "data" else {"kind": kind, "pid": draw(st.integers(0, 4))}
             env.append({"at": draw(st.sampled_from([0.02, 0.1, 0.4])), "ev": "append",
                         "log": draw(st.integers(0, nparts - 1)), "spec": spec})
         return {"cfg": cfg, "cluster": {"nodes": nodes, "fetch_max": draw(st.sampled_from([11, 11, 10, 7, 5, 4])),
@@ -202,6 +202,7 @@ def strategy():
                 "lat": draw(st.lists(st.sampled_from([0.0005, 0.002, 0.01]), min_size=1, max_size=3)),
                 "chunks": draw(st.lists(st.sampled_from([0, 0, 7, 64]), min_size=1, max_size=3)),
                 "rng_seed": draw(st.integers(0, 2 ** 31)),
+                "debug_log": draw(st.integers(0, 7)) == 0,
                 "drain": draw(st.sampled_from(["getmany", "getmany", "getone"]))}
     return cases()
 
